@@ -335,6 +335,15 @@ fn main() {
         id += 1;
     }
 
+    // (b3) directed families: the same immediate around every opcode; every opcode and form at the boundary pool
+    for (p, mode, tag) in pgen::directed_programs() {
+        let pts = pgen::input_points(&mut rng, mode, p.nvars, if mode == Mode::Boundary { 12 } else { 3 });
+        let n = [3usize, 255][id % 2];
+        let res = with_n!(n, compile_and_eval(&p, &pts));
+        emit(&mut w, id, tag, n, res, &ssa_ref, mode, Some(&p));
+        id += 1;
+    }
+
     // (c) random DAGs through the public Context API: exercises SsaTape::new too;
     // reference is Context::eval, the graph evaluated directly
     let nctx = if quick { 150 } else { 2000 };
